@@ -32,6 +32,12 @@ WITNESS_TEXTS = [
     'os_name == "posix" and ((sys_platform == "x" and platform_machine != "b") or (sys_platform != "x" and platform_machine == "b"))',
     '(os_name == "a" and sys_platform == "x") or (os_name == "a" and platform_machine == "b")',
     '(os_name == "a" or sys_platform == "x") and (os_name == "a" or sys_platform != "x")',
+    # a `!=`-group and an `==`-group of one variable (values overlapping in one / none / all) kept apart by other atoms: only(that variable) /
+    # exclude(the others) makes the two groups meet bare in of()
+    '(sys_platform != "win32" and sys_platform != "linux" and os_name == "nt") or ((sys_platform == "linux" or sys_platform == "cygwin") and os_name == "posix")',
+    '(sys_platform != "win32" and sys_platform != "linux" and os_name == "nt") or ((sys_platform == "aix" or sys_platform == "cygwin") and os_name == "posix")',
+    '(sys_platform != "win32" and sys_platform != "linux" and os_name == "nt") or ((sys_platform == "linux" or sys_platform == "win32") and os_name == "posix")',
+    '(sys_platform == "win32" or sys_platform == "linux" or os_name == "nt") and ((sys_platform != "linux" and sys_platform != "cygwin") or os_name == "posix")',
 ]
 
 
@@ -162,6 +168,11 @@ def run(tier="quick", seed=0, arg=None):
            'python_full_version > "3.8.0"', 'python_full_version < "3.8.1"', 'python_full_version in "3.8.1, 3.9.0"']
     vp = [(t, parse_marker(t)) for t in vp]
     group_pairs += [(x, y) for x in vp for y in vp]
+    # a python_version literal longer than the variable's own X.Y (`python_version >= "3.8.1"` selects 3.9 and later, `== "3.8.1"` nothing) against
+    # python_full_version atoms around it: the cross-variable merge must not read the literal as a full version
+    longp = [(t, parse_marker(t)) for t in [f'python_version {op} "{v}"' for v in ("3.8.1", "3.8.0.0") for op in ("==", "!=", "<", "<=", ">", ">=", "~=")]]
+    fullp = [(t, parse_marker(t)) for t in [f'python_full_version {op} "{v}"' for v in ("3.8.5", "3.8.1", "3.8.0") for op in ("==", "!=", "<", ">=")]]
+    group_pairs += [(x, y) for x in longp for y in fullp] + [(y, x) for x in longp[:4] for y in fullp[:4]]
     W = [(t, m) for t, m in pool if t in set(WITNESS_TEXTS)]
     group_pairs += [(x, y) for x in W for y in W]
     import time as _time
